@@ -7,7 +7,7 @@ out=/tmp/vm_results/$id; mkdir -p $out
 git -C /repo worktree remove --force $wt >/dev/null 2>&1
 git -C /repo worktree add -q --detach $wt HEAD || exit 2
 head=$(git -C /repo rev-parse --short HEAD)
-sed -e "s#/tmp/wt[23]\{0,1\}_C[0-9]*#$wt#g" -e "s#/repo#$wt#g" "$demo" > $out/demo.py
+sed -e "s#/tmp/wt[234]\{0,1\}_C[0-9]*#$wt#g" -e "s#/repo#$wt#g" "$demo" > $out/demo.py
 ( cd /tmp && PYTHONPATH=$wt/src /venv/bin/python $out/demo.py > $out/demo_clean.log 2>&1 ); rc_clean=$?
 git -C $wt apply "$patch" || { echo "{\"id\":\"$id\",\"error\":\"patch does not apply to $head\"}" > $out/result.json; git -C /repo worktree remove --force $wt; exit 1; }
 ( cd /tmp && PYTHONPATH=$wt/src /venv/bin/python $out/demo.py > $out/demo_mut.log 2>&1 ); rc_mut=$?
